@@ -510,6 +510,7 @@ type c05Collector struct {
 	wire    map[string][]string
 	inMulti map[string]bool
 	multi   map[int]int64
+	tiny    []string // mutations without an op id (the tiny-cellblock phase), in arrival order
 }
 
 var rePrio = regexp.MustCompile(` prio=\d+`)
@@ -533,6 +534,9 @@ func (col *c05Collector) tap(cl *sim.Cluster) func(*sim.Request) {
 				add(a.OpID, wireGet(a.Get, req.Priority), a.Region, a.Row)
 			case a.Mutation != nil:
 				c := wireMutate(a)
+				if a.OpID == "" && a.Cond == nil {
+					col.tiny = append(col.tiny, c)
+				}
 				if a.Cond != nil {
 					cmp := &pb.BinaryComparator{}
 					_ = proto.Unmarshal(a.Cond.Comparator.GetSerializedComparator(), cmp)
@@ -736,6 +740,46 @@ func runC05Case(c *fw.Ctx, id string, cfg c05Config, seed int64, opsPer int) {
 	}
 	stuck := !within(120*time.Second, wg.Wait)
 	c.Count("batches_with_a_call_cancelled_before_flush", int64(cancelledInBatch))
+	// Tiny cellblocks: one cell of a few bytes (24..40 bytes of cellblock), sent one at a time
+	// without an op id, so that the smallest payloads also pass through the announced codec.
+	var tinyWant []string
+	var tinyErr error
+	if !stuck {
+		tr := rand.New(rand.NewSource(seed*131 + 7))
+		for k := 0; k < 12 && tinyErr == nil; k++ {
+			row := []byte{byte('a' + tr.Intn(26))}
+			q := string(rbytes(tr, tr.Intn(3)))
+			var call *hrpc.Mutate
+			var cell sim.Cell
+			var mtype string
+			opts := []func(hrpc.Call) error{}
+			if tr.Intn(2) == 0 {
+				opts = append(opts, hrpc.SkipBatch())
+			}
+			switch tr.Intn(3) {
+			case 0:
+				v := rbytes(tr, tr.Intn(4))
+				call, tinyErr = hrpc.NewPut(ctx, []byte("t"), row, map[string]map[string][]byte{"f": {q: v}}, opts...)
+				cell, mtype = sim.Cell{Family: []byte("f"), Qualifier: []byte(q), Value: v, TS: sim.LatestTimestamp, Type: sim.TypePut}, "PUT"
+			case 1:
+				call, tinyErr = hrpc.NewDel(ctx, []byte("t"), row, map[string]map[string][]byte{"f": {q: nil}}, opts...)
+				cell, mtype = sim.Cell{Family: []byte("f"), Qualifier: []byte(q), TS: sim.LatestTimestamp, Type: sim.TypeDeleteColumn}, "DELETE"
+			default:
+				call, tinyErr = hrpc.NewDel(ctx, []byte("t"), row, map[string]map[string][]byte{"g": nil}, opts...)
+				cell, mtype = sim.Cell{Family: []byte("g"), Qualifier: []byte{}, TS: sim.LatestTimestamp, Type: sim.TypeDeleteFamily}, "DELETE"
+			}
+			if tinyErr != nil {
+				panic(tinyErr)
+			}
+			tinyWant = append(tinyWant, fmt.Sprintf("mutate type=%s row=%q dur=%d ttl=%d ts=%s cells=%s", mtype, row, 0, int64(-1), "absent", canonCells([]sim.Cell{cell})))
+			if mtype == "PUT" {
+				_, tinyErr = client.Put(call)
+			} else {
+				_, tinyErr = client.Delete(call)
+			}
+			c.Count("tiny_cellblock_mutations_sent", 1)
+		}
+	}
 	malformed := 0
 	for _, e := range cl.Log.Snapshot() {
 		if e.Kind == "malformed" {
@@ -768,6 +812,23 @@ func runC05Case(c *fw.Ctx, id string, cfg c05Config, seed int64, opsPer int) {
 	}
 	col.mu.Lock()
 	defer col.mu.Unlock()
+	if tinyErr != nil && malformed == 0 {
+		c.Violate(id, "wire:call-failed:tiny-cellblock", fmt.Sprintf("a one-cell mutation failed on a fault-free cluster: %v [%s]", tinyErr, cfg), cfg)
+	} else if tinyErr == nil {
+		for k, want := range tinyWant {
+			got := "(never decoded)"
+			if k < len(col.tiny) {
+				got = col.tiny[k]
+			}
+			if got != want {
+				c.Violate(id, "wire:decoded-differs:tiny-cellblock", fmt.Sprintf("one-cell mutation %d\n  built  : %s\n  decoded: %s\n  [%s]", k, want, got, cfg), cfg)
+				break
+			}
+		}
+		if len(col.tiny) > len(tinyWant) {
+			c.Violate(id, "wire:sent-more-than-once:tiny-cellblock", fmt.Sprintf("%d one-cell mutations sent, %d decoded [%s]", len(tinyWant), len(col.tiny), cfg), cfg)
+		}
+	}
 	for opid, s := range specs {
 		c.Count("calls_"+s.Kind, 1)
 		c.Count("calls_checked", 1)
